@@ -358,11 +358,12 @@ def runToks (F : Facts) (d : PDesc) (p : Nat) (self : PRef) (valId : Nat) (toks 
   toks.foldl (tokStep F d p self valId) r
 
 /-- `parser.dump(cfg, â€¦)` after validation: strip_link_target_keys reads linked_targets; ActionTypeHint.serialize
-    sets dump_kwargs (no reset) and the serialising adapt of class / dataclass values reads it back -/
+    sets dump_kwargs (no reset) and the serialising adapt of class / dataclass values reads it back
+    (were the set not made on entry â€” fact false â€” it is modelled as made after the read; likewise `self.args`) -/
 def dumpBody (F : Facts) (p : Nat) (dk : DK) (t : Tail) (r : Run) : Run :=
   (r.noteW fun w => .linked (w.linked p)).when t.typed fun r =>
-    ((r.when F.dkSetInSerialize fun r => r.upd (setDk dk)).when (t.clsFinal || t.dcFinal)
-      fun r => r.noteW fun w => .dk w.dumpKwargs)
+    (((r.when F.dkSetInSerialize fun r => r.upd (setDk dk)).when (t.clsFinal || t.dcFinal)
+      fun r => r.noteW fun w => .dk w.dumpKwargs).when (!F.dkSetInSerialize) fun r => r.upd (setDk dk))
 
 /-- what validation does unless the lenient flag is on: every value is adapted again -/
 def revalidate (F : Facts) (p : Nat) (valId : Nat) (t : Tail) (fail : Outcome) (r : Run) : Run :=
@@ -424,6 +425,7 @@ def parseArgs (F : Facts) (d : PDesc) (p : Nat) (a : Argv) (w : World) : World Ã
   let r := r.when d.shtab fun r => r.upd (setShtab p)
   let r := r.when F.argsBeforeParse fun r => r.upd (setArgs (.root p) a.id)
   let r := parseArgsBody F d p a r
+  let r := r.when (!F.argsBeforeParse) fun r => r.upd (setArgs (.root p) a.id)
   -- finally: self.__dict__.pop("print_config", None)
   finish (r.when F.finallyPops fun r => r.upd (setPending p none))
 
